@@ -2,12 +2,15 @@ package decoder
 
 import (
 	"context"
+	"strings"
 
 	"github.com/hashicorp/hcl-lang/decoder/internal/schemahelper"
 	"github.com/hashicorp/hcl-lang/lang"
+	"github.com/hashicorp/hcl-lang/reference"
 	"github.com/hashicorp/hcl-lang/schema"
 	"github.com/hashicorp/hcl/v2"
 	"github.com/hashicorp/hcl/v2/hclsyntax"
+	"github.com/zclconf/go-cty/cty"
 )
 
 const vf = "test.tf"
@@ -232,6 +235,31 @@ func VerifP_C01C02C04C05C14_Symbols(i int) {
 			for k := 1; k < len(syms); k++ {
 				verifAssert(syms[k-1].Range().Start.Byte <= syms[k].Range().Start.Byte, "C14:source-order")
 			}
+			// one symbol per attribute and block written at the top level, named after it
+			body := d.pathCtx.Files[vf].Body.(*hclsyntax.Body)
+			verifAssert(len(syms) == len(body.Attributes)+len(body.Blocks), "C14:one-symbol-per-item")
+			for name, a := range body.Attributes {
+				found := false
+				for _, sy := range syms {
+					if sy.Name() == name {
+						found = verifOr(found, verifAnd(sy.Range().Start.Byte == a.SrcRange.Start.Byte, sy.Range().End.Byte == a.SrcRange.End.Byte))
+					}
+				}
+				verifAssert(found, "C14:attribute-symbol-with-its-extent")
+			}
+			for _, b := range body.Blocks {
+				want := b.Type
+				for _, l := range b.Labels {
+					want += " \"" + l + "\""
+				}
+				found := false
+				for _, sy := range syms {
+					if sy.Name() == want {
+						found = verifOr(found, verifAnd(sy.Range().Start.Byte == b.Range().Start.Byte, sy.Range().End.Byte == b.Range().End.Byte))
+					}
+				}
+				verifAssert(found, "C14:block-symbol-with-its-extent")
+			}
 		}
 	})
 	verifNoWrites("C04:symbols-writes", true)
@@ -267,14 +295,7 @@ func VerifP_C01C02C04C05C09_Targets(i int) {
 	verifQuery(func() {
 		ts, err := d.CollectReferenceTargets()
 		if err == nil {
-			for _, t := range ts {
-				if t.RangePtr != nil {
-					verifAssert(verifRealRange(vf, *t.RangePtr), "C02:target-range")
-				}
-				if t.DefRangePtr != nil {
-					verifAssert(verifRealRange(vf, *t.DefRangePtr), "C02:target-defrange")
-				}
-			}
+			verifCheckTargets(ts, nil)
 		}
 	})
 	verifNoWrites("C04:targets-writes", true)
@@ -282,10 +303,59 @@ func VerifP_C01C02C04C05C09_Targets(i int) {
 	verifReach("end")
 }
 
+// verifCheckTargets: ranges are real; a nested target extends its parent's address by exactly one
+// step; sibling steps are pairwise different; numeric index steps follow the source order; a nested
+// target of a written value lies inside its parent's range; DefRange lies inside Range.
+func verifCheckTargets(ts reference.Targets, parent *reference.Target) {
+	for k, t := range ts {
+		if t.RangePtr != nil {
+			verifAssert(verifRealRange(vf, *t.RangePtr), "C02:target-range")
+		}
+		if t.DefRangePtr != nil {
+			verifAssert(verifRealRange(vf, *t.DefRangePtr), "C02:target-defrange")
+			if t.RangePtr != nil {
+				verifAssert(verifAnd(t.RangePtr.Start.Byte <= t.DefRangePtr.Start.Byte, t.DefRangePtr.End.Byte <= t.RangePtr.End.Byte), "C09:definition-inside-declaration")
+			}
+		}
+		if parent != nil && len(parent.Addr) > 0 && len(t.Addr) > 0 {
+			verifAssert(len(t.Addr) == len(parent.Addr)+1, "C09:nested-address-one-step-longer")
+			if len(t.Addr) == len(parent.Addr)+1 {
+				verifAssert(t.Addr.FirstSteps(uint(len(parent.Addr))).Equals(parent.Addr), "C09:nested-address-extends-parent")
+			}
+			last := t.Addr[len(t.Addr)-1].String()
+			for j := 0; j < k; j++ {
+				o := ts[j]
+				if len(o.Addr) == len(t.Addr) {
+					verifAssert(o.Addr[len(o.Addr)-1].String() != last || o.Type != t.Type, "C09:sibling-steps-distinct")
+				}
+			}
+			if t.RangePtr != nil && parent.RangePtr != nil && parent.RangePtr.Filename == t.RangePtr.Filename {
+				verifAssert(verifAnd(parent.RangePtr.Start.Byte <= t.RangePtr.Start.Byte, t.RangePtr.End.Byte <= parent.RangePtr.End.Byte), "C09:element-inside-its-value")
+			}
+			if is, ok := t.Addr[len(t.Addr)-1].(lang.IndexStep); ok && is.Key.Type() == cty.Number && t.RangePtr != nil {
+				// list index = source order: an element with a smaller index starts earlier
+				for j := 0; j < k; j++ {
+					o := ts[j]
+					if len(o.Addr) != len(t.Addr) || o.RangePtr == nil {
+						continue
+					}
+					if js, ok := o.Addr[len(o.Addr)-1].(lang.IndexStep); ok && js.Key.Type() == cty.Number {
+						if js.Key.LessThan(is.Key).True() {
+							verifAssert(o.RangePtr.Start.Byte <= t.RangePtr.Start.Byte, "C09:list-index-is-source-order")
+						}
+					}
+				}
+			}
+		}
+		tt := t
+		verifCheckTargets(t.NestedTargets, &tt)
+	}
+}
+
 func VerifP_C01C02C04C05C10_Origins_N() int { return len(verifSeedList()) }
 func VerifP_C01C02C04C05C10_Origins_Name(i int) string { return verifSeedList()[i].name }
 func VerifP_C01C02C04C05C10_Origins(i int) {
-	d, _ := verifSeedDecoder(i)
+	d, s := verifSeedDecoder(i)
 	verifFreeze(d.pathCtx)
 	verifQuery(func() {
 		os, err := d.CollectReferenceOrigins()
@@ -296,11 +366,159 @@ func VerifP_C01C02C04C05C10_Origins(i int) {
 					verifAssert(os[k-1].OriginRange().Start.Byte <= o.OriginRange().Start.Byte, "C10:origins-ordered")
 				}
 			}
+			if !verifSeedHasOneOf(s) {
+				body := d.pathCtx.Files[vf].Body.(*hclsyntax.Body)
+				want := verifExpectedOrigins(body, d.pathCtx.Schema)
+				got := 0
+				for _, o := range os {
+					if _, ok := o.(reference.LocalOrigin); ok {
+						got++
+					}
+				}
+				if !verifSeedHasForExpr(s) {
+					verifAssert(got == len(want), "C10:one-origin-per-written-reference")
+				}
+				for _, w := range want {
+					found := false
+					for _, o := range os {
+						lo, ok := o.(reference.LocalOrigin)
+						if ok && lo.Addr.String() == w.addr {
+							found = verifOr(found, verifAnd(lo.Range.Start.Byte == w.rng.Start.Byte, lo.Range.End.Byte == w.rng.End.Byte))
+						}
+					}
+					verifAssert(found, "C10:written-reference-collected-with-its-range")
+				}
+			}
 		}
 	})
 	verifNoWrites("C04:origins-writes", true)
 	verifNoWrites("C05:origins-writes", false)
 	verifReach("end")
+}
+
+type verifWantOrigin struct {
+	addr string
+	rng  hcl.Range
+}
+
+// a for expression's iterator variable is collected as an origin by the decoder but is not a free
+// variable for hclsyntax.Variables; the property does not say which reading is right, so the count
+// is not compared on such seeds (inclusion still is)
+func verifSeedHasForExpr(s verifSeed) bool {
+	return s.name == "alst-for"
+}
+
+func verifSeedHasOneOf(s verifSeed) bool {
+	return s.name == "one" // the OneOf attribute: the admitted forms are a union, not modelled by the oracle
+}
+
+// verifExpectedOrigins: the references written at places where the attribute's constraint admits a
+// reference or an arbitrary expression (computed with hclsyntax.Variables, independently of the collector).
+func verifExpectedOrigins(body *hclsyntax.Body, bs *schema.BodySchema) []verifWantOrigin {
+	var out []verifWantOrigin
+	if bs == nil {
+		return out
+	}
+	selfOK := bs.Extensions != nil && bs.Extensions.SelfRefs
+	for name, attr := range body.Attributes {
+		as, ok := bs.Attributes[name]
+		if !ok {
+			if bs.Extensions != nil && bs.Extensions.Count && name == "count" {
+				as = schemahelper.CountAttributeSchema()
+			} else if bs.Extensions != nil && bs.Extensions.ForEach && name == "for_each" {
+				as = schemahelper.ForEachAttributeSchema()
+			} else if bs.AnyAttribute != nil {
+				as = bs.AnyAttribute
+			} else {
+				continue
+			}
+		}
+		out = append(out, verifRefsUnder(attr.Expr, as.Constraint, selfOK)...)
+	}
+	for _, block := range body.Blocks {
+		bsch, ok := bs.Blocks[block.Type]
+		if !ok || block.Body == nil {
+			continue
+		}
+		merged, _ := schemahelper.MergeBlockBodySchemas(block.AsHCLBlock(), bsch)
+		out = append(out, verifExpectedOrigins(block.Body, merged)...)
+	}
+	return out
+}
+
+func verifRefsUnder(expr hclsyntax.Expression, cons schema.Constraint, selfOK bool) []verifWantOrigin {
+	var out []verifWantOrigin
+	add := func(e hclsyntax.Expression) {
+		for _, tr := range hclsyntax.Variables(e) {
+			if tr.RootName() == "self" && !selfOK {
+				continue
+			}
+			addr, err := lang.TraversalToAddress(tr)
+			if err != nil {
+				continue
+			}
+			out = append(out, verifWantOrigin{addr: addr.String(), rng: tr.SourceRange()})
+		}
+	}
+	switch c := cons.(type) {
+	case schema.OneOf:
+		// the admitted forms are a union: a reference admitted by any member counts once
+		seen := map[string]bool{}
+		for _, m := range c {
+			for _, w := range verifRefsUnder(expr, m, selfOK) {
+				k := w.addr + "@" + stringPos(w.rng.Start)
+				if !seen[k] {
+					seen[k] = true
+					out = append(out, w)
+				}
+			}
+		}
+	case schema.AnyExpression:
+		add(expr)
+	case schema.Reference:
+		if _, ok := expr.(*hclsyntax.ScopeTraversalExpr); ok {
+			add(expr)
+		}
+	case schema.List:
+		if t, ok := expr.(*hclsyntax.TupleConsExpr); ok {
+			for _, e := range t.Exprs {
+				out = append(out, verifRefsUnder(e, c.Elem, selfOK)...)
+			}
+		}
+	case schema.Set:
+		if t, ok := expr.(*hclsyntax.TupleConsExpr); ok {
+			for _, e := range t.Exprs {
+				out = append(out, verifRefsUnder(e, c.Elem, selfOK)...)
+			}
+		}
+	case schema.Tuple:
+		if t, ok := expr.(*hclsyntax.TupleConsExpr); ok {
+			for k, e := range t.Exprs {
+				if k < len(c.Elems) {
+					out = append(out, verifRefsUnder(e, c.Elems[k], selfOK)...)
+				}
+			}
+		}
+	case schema.Map:
+		if o, ok := expr.(*hclsyntax.ObjectConsExpr); ok {
+			for _, it := range o.Items {
+				out = append(out, verifRefsUnder(it.ValueExpr, c.Elem, selfOK)...)
+			}
+		}
+	case schema.Object:
+		if o, ok := expr.(*hclsyntax.ObjectConsExpr); ok {
+			for _, it := range o.Items {
+				key, _, found := rawObjectKey(it.KeyExpr)
+				if !found {
+					continue
+				}
+				if as, ok := c.Attributes[key]; ok {
+					out = append(out, verifRefsUnder(it.ValueExpr, as.Constraint, selfOK)...)
+				}
+			}
+		}
+	}
+	return out
 }
 
 func VerifP_C01C02C04C05C20_Signature_N() int { return len(verifSeedList()) }
@@ -312,12 +530,91 @@ func VerifP_C01C02C04C05C20_Signature(i int) {
 	verifQuery(func() {
 		sig, err := d.SignatureAtPos(vf, pos)
 		if err == nil && sig != nil {
-			verifAssert(int(sig.ActiveParameter) < len(sig.Parameters) || len(sig.Parameters) == 0, "C20:active-parameter-valid")
+			verifAssert(int(sig.ActiveParameter) < len(sig.Parameters) || len(sig.Parameters) == 0, "C20:active-parameter-valid"+verifCursorTag())
+		}
+		if err == nil {
+			verifCheckSignature(d, pos, sig)
 		}
 	})
 	verifNoWrites("C04:signature-writes", true)
 	verifNoWrites("C05:signature-writes", false)
 	verifReach("end")
+}
+
+// verifCheckSignature: the oracle counts, in the token list, the top-level commas of the innermost
+// known call between its opening parenthesis and the cursor.
+func verifCheckSignature(d *PathDecoder, pos hcl.Pos, sig *lang.FunctionSignature) {
+	body := d.pathCtx.Files[vf].Body.(*hclsyntax.Body)
+	var inner *hclsyntax.FunctionCallExpr
+	boundary := false
+	hclsyntax.VisitAll(body, func(node hclsyntax.Node) hcl.Diagnostics {
+		call, ok := node.(*hclsyntax.FunctionCallExpr)
+		if !ok {
+			return nil
+		}
+		if _, known := d.pathCtx.Functions[call.Name]; !known {
+			return nil
+		}
+		if call.CloseParenRange.End.Byte == 0 {
+			return nil // unterminated call: the parser gives no closing parenthesis (F11)
+		}
+		// strictly inside the parentheses
+		if call.OpenParenRange.End.Byte <= pos.Byte && pos.Byte <= call.CloseParenRange.Start.Byte {
+			inner = call // VisitAll goes from outer to inner nodes
+		}
+		// directly in front of an opening parenthesis the decoder already reports that call;
+		// whether that position is "inside the parentheses" is not settled by the property
+		if call.OpenParenRange.Start.Byte == pos.Byte {
+			boundary = true
+		}
+		return nil
+	})
+	if inner == nil || boundary {
+		return
+	}
+	f := d.pathCtx.Functions[inner.Name]
+	params := len(f.Params)
+	if f.VarParam != nil {
+		params++
+	}
+	if params == 0 {
+		verifAssert(sig != nil, "C20:signature-inside-known-call"+verifCursorTag())
+		return
+	}
+	tokens, _ := hclsyntax.LexConfig(d.pathCtx.Files[vf].Bytes, vf, hcl.InitialPos)
+	commas, depth := 0, 0
+	for _, t := range tokens {
+		if t.Range.Start.Byte < inner.OpenParenRange.End.Byte || t.Range.End.Byte > pos.Byte {
+			continue
+		}
+		switch t.Type {
+		case hclsyntax.TokenOParen, hclsyntax.TokenOBrack, hclsyntax.TokenOBrace, hclsyntax.TokenTemplateInterp, hclsyntax.TokenTemplateControl:
+			depth++
+		case hclsyntax.TokenCParen, hclsyntax.TokenCBrack, hclsyntax.TokenCBrace, hclsyntax.TokenTemplateSeqEnd:
+			depth--
+		case hclsyntax.TokenComma:
+			if depth == 0 {
+				commas++
+			}
+		}
+	}
+	if commas >= params && f.VarParam == nil {
+		// more arguments than parameters and no variadic one: no signature of this call
+		if sig != nil {
+			verifAssert(!strings.HasPrefix(sig.Name, inner.Name+"("), "C20:none-for-surplus-argument"+verifCursorTag())
+		}
+		return
+	}
+	want := commas
+	if want >= params {
+		want = params - 1
+	}
+	verifAssert(sig != nil, "C20:signature-inside-known-call"+verifCursorTag())
+	if sig != nil {
+		verifAssert(strings.HasPrefix(sig.Name, inner.Name+"("), "C20:signature-of-innermost-known-call"+verifCursorTag())
+		verifAssert(len(sig.Parameters) == params, "C20:parameters-fixed-then-variadic"+verifCursorTag())
+		verifAssert(int(sig.ActiveParameter) == want, "C20:active-parameter-is-argument-slot-under-cursor"+verifCursorTag())
+	}
 }
 
 func VerifP_C01C02C04C05C16_Links_N() int { return len(verifSeedList()) }
